@@ -2,6 +2,7 @@ INIT Init
 NEXT Next
 CONSTANTS
   CpsMode = TRUE
+  LongN = 1
 INVARIANT BothParse
 INVARIANT Export
 CHECK_DEADLOCK FALSE
